@@ -300,15 +300,21 @@ theorem readKthBody_lists {γ : Type} (C : GClass γ) (size : Nat) (ls : List (N
         exact hs.1 q.1 (List.mem_map.2 ⟨q, hq, rfl⟩)
       · intro q hq; exact hrange q (List.mem_cons_of_mem _ hq)
 
-theorem readKth_rows {γ : Type} (C : GClass γ) (n : Nat) (ls : List (Nat × List Nat))
+theorem kthHeader_comments (k : Nat) (rs : List KRow) :
+    kthHeader (List.replicate k .comment ++ rs) = kthHeader rs := by
+  induction k with
+  | zero => rfl
+  | succ k ih => simp only [List.replicate_succ, List.cons_append, kthHeader, ih]
+
+theorem readKth_rows {γ : Type} (C : GClass γ) (k n : Nat) (ls : List (Nat × List Nat))
     (hsorted : (ls.map (·.1)).Pairwise (· < ·))
     (hrange : ∀ p ∈ ls, (1 ≤ p.1 ∧ p.1 ≤ n) ∧ ∀ x ∈ p.2, 1 ≤ x ∧ x ≤ n) :
-    readKth C (kthRows n ls) =
+    readKth C (kthRows k n ls) =
       match GSem.addAll C (C.init n) (listCalls ls) with
       | .error e => .error e
       | .ok G => if n ≠ C.order G then .error .valueError else .ok G := by
   have hn : ¬ ((n : Int) < 0) := by omega
-  simp only [readKth, kthRows, kthHeader, hn, if_false, Int.toNat_natCast]
+  simp only [readKth, kthRows, kthHeader_comments, kthHeader, hn, if_false, Int.toNat_natCast]
   rw [readKthBody_lists C n ls (C.init n) 0 hsorted (fun p hp => (hrange p hp).1.1) hrange]
   cases GSem.addAll C (C.init n) (listCalls ls) <;> rfl
 
@@ -318,8 +324,8 @@ theorem pairwise_range_succ (n : Nat) : ((List.range n).map (· + 1)).Pairwise (
   exact List.pairwise_lt_range.imp (by omega)
 
 /-- T-C14.1 (kthlist, simple graph) -/
-theorem roundtrip_kth_simple {G : SimpleG} (h : SimpleG.Inv G) :
-    ∃ G', readKth simpleClass (writeKthSimple G) = .ok G' ∧ SimpleG.Same G G' := by
+theorem roundtrip_kth_simple (k : Nat) {G : SimpleG} (h : SimpleG.Inv G) :
+    ∃ G', readKth simpleClass (writeKthSimple k G) = .ok G' ∧ SimpleG.Same G G' := by
   have hfirst : ((simpleLists G).map (·.1)) = (List.range G.n).map (· + 1) := by
     simp [simpleLists, Function.comp_def]
   have hrange : ∀ p ∈ simpleLists G, (1 ≤ p.1 ∧ p.1 ≤ G.n) ∧ ∀ x ∈ p.2, 1 ≤ x ∧ x ≤ G.n := by
@@ -329,7 +335,7 @@ theorem roundtrip_kth_simple {G : SimpleG} (h : SimpleG.Inv G) :
     refine ⟨⟨by omega, by omega⟩, fun x hx => ?_⟩
     have := h.nbrs_range hx
     omega
-  have hrows := readKth_rows simpleClass G.n (simpleLists G) (by rw [hfirst]; exact pairwise_range_succ _) hrange
+  have hrows := readKth_rows simpleClass k G.n (simpleLists G) (by rw [hfirst]; exact pairwise_range_succ _) hrange
   have hvalid : ∀ x ∈ listCalls (simpleLists G), simpleSem.Valid (simpleClass.order (simpleClass.init G.n)) x.1 x.2 := by
     intro x hx
     obtain ⟨p, hp, v, hv, rfl⟩ := mem_listCalls.1 hx
@@ -371,8 +377,8 @@ theorem roundtrip_kth_simple {G : SimpleG} (h : SimpleG.Inv G) :
       · simp
 
 /-- T-C14.1 (kthlist, directed graph; the same file is read for `digraph` and `dag`) -/
-theorem roundtrip_kth_di {G : DiG} (h : DiG.Inv G) :
-    ∃ G', readKth diClass (writeKthDi G) = .ok G' ∧ DiG.Same G G' := by
+theorem roundtrip_kth_di (k : Nat) {G : DiG} (h : DiG.Inv G) :
+    ∃ G', readKth diClass (writeKthDi k G) = .ok G' ∧ DiG.Same G G' := by
   have hfirst : ((diLists G).map (·.1)) = (List.range G.n).map (· + 1) := by
     simp [diLists, Function.comp_def]
   have hpr : ∀ {u v : Nat}, v ∈ G.preds u → 1 ≤ u ∧ u ≤ G.n ∧ 1 ≤ v ∧ v ≤ G.n := by
@@ -386,7 +392,7 @@ theorem roundtrip_kth_di {G : DiG} (h : DiG.Inv G) :
     refine ⟨⟨by omega, by omega⟩, fun x hx => ?_⟩
     have := hpr hx
     omega
-  have hrows := readKth_rows diClass G.n (diLists G) (by rw [hfirst]; exact pairwise_range_succ _) hrange
+  have hrows := readKth_rows diClass k G.n (diLists G) (by rw [hfirst]; exact pairwise_range_succ _) hrange
   have hvalid : ∀ x ∈ listCalls (diLists G), diSem.Valid (diClass.order (diClass.init G.n)) x.1 x.2 := by
     intro x hx
     obtain ⟨p, hp, v, hv, rfl⟩ := mem_listCalls.1 hx
